@@ -27,19 +27,17 @@ import time
 import types
 import warnings
 
-import shutil
-import tempfile
-
-from harness import common
 from harness.common import enc, dec, Driver, shrink_str, ddmin
 
 RULE = ("pipeline: filter lists of 0-4 entries over {h,x,u,trim,entity,str,unicode,n,decode.utf8,f,g,f(1),g(\"a|b\")} "
-        "(exhaustive in thorough = 30941 lists; quick: all lists of <=2 plus a seeded sample of 3-4) x default_filters "
+        "(thorough: all 30941 lists x all 20 configurations at the expression site, all lists of <=3 x all configurations "
+        "and all 4-filter lists x 2 of 4 representative configurations (alternating with the seed) at the other sites; "
+        "quick: all lists of <=2 plus a seeded sample of 3-4) x default_filters "
         "{None,[],[str],[f],[f,g]} x page expression_filter {absent,g,n,'g,n'} x site {expression, def filter=, "
         "block filter=, <%text filter=>, buffered def + buffer_filters {[],[g],[f,n],[trim,f]}}; non-trivial = at least "
         "two pipeline sources contribute or `n` is present; distinct = distinct (site, D, P, B, list). "
         "scanner: every concatenation of <=k tokens over { } ( ) [ ] | ' \" ''' \"\"\" \\ # \\n a (quick k=4 for both "
-        "terminator sets; thorough k=5 for both, k=6 for `|`,`}` and a 1/4 phase of k=6 for `}`, a 1/64 phase of k=7), "
+        "terminator sets; thorough k=5 for both, k=6 for `|`,`}` and a 1/8 phase of k=6 for `}`, a 1/64 phase of k=7), "
         "directly through parse_until_text; generated Python "
         "expressions (nested brackets, dict/set literals, lambdas, strings with | } # and escapes, triple quotes, "
         "f-strings without quote reuse, comments and newlines inside brackets, CRLF) with 0-3 filters in varied spacing, "
@@ -917,8 +915,11 @@ def pipe_jobs(ctx):
             for site in ("def", "block", "text"):
                 for ch in chunks(other_lists_allcfg, 300):
                     corr.append((site, D, P, B0, ch))
-    for (D, P) in REPR_CFGS:
+    for ci, (D, P) in enumerate(REPR_CFGS):
         for site in ("def", "block", "text"):
+            # 4-filter lists: two of the representative configurations per run (all four over two seeds)
+            if not ctx.quick and ci % 2 != ctx.seed % 2:
+                continue
             for ch in chunks(other_lists_repr, 300):
                 corr.append((site, D, P, B0, ch))
         for B in BUFS:
@@ -1041,23 +1042,6 @@ def scan_spec_violated(s, terms):
 
 
 def run(ctx):
-    """the driver binary is copied to a scratch directory first: other checks may relink it while this one runs"""
-    tmp = tempfile.mkdtemp(prefix="c02_")
-    saved = common.DRV
-    try:
-        lk = common._lock()
-        try:
-            shutil.copy2(saved, os.path.join(tmp, "makodrv"))
-        finally:
-            lk.close()
-        common.DRV = os.path.join(tmp, "makodrv")
-        _run(ctx)
-    finally:
-        common.DRV = saved
-        shutil.rmtree(tmp, ignore_errors=True)
-
-
-def _run(ctx):
     install_usermod()
     viols = []
     pool = multiprocessing.get_context("fork").Pool(NPROC)
@@ -1076,13 +1060,13 @@ def _run(ctx):
                     for pre in itertools.product(TOKS, repeat=n - 3):
                         scan_jobs.append((pre, 3, TOKS, 1, 0, (0, 1)))
                 else:
-                    # k = 6: exhaustive for the expression terminators, a 1/4 phase for the filter part
+                    # k = 6: exhaustive for the expression terminators, a 1/8 phase for the filter part
                     for pre in itertools.product(TOKS, repeat=n - 3):
                         scan_jobs.append((pre, 3, TOKS, 1, 0, (1,)))
             k7 = []
             if not ctx.quick:
                 for pre in itertools.product(TOKS, repeat=3):
-                    k7.append((pre, 3, TOKS, 4, ctx.seed % 4, (0,)))
+                    k7.append((pre, 3, TOKS, 8, ctx.seed % 8, (0,)))
                 phase = ctx.seed % 64
                 for pre in itertools.product(TOKS14, repeat=3):
                     k7.append((pre, 4, TOKS14, 64, phase, (1,)))
@@ -1117,7 +1101,7 @@ def _run(ctx):
             for stream, kind, a in asyncs:
                 r = a.get(timeout=3000)
                 ctx.stream(stream, kind, exhaustive=stream in ("corr.scanner.exhaustive",) or
-                           (stream.startswith("corr.pipeline.") and not ctx.quick))
+                           (stream == "corr.pipeline.expr" and not ctx.quick))
                 v = merge(ctx, stream, kind, r)
                 if v:
                     ctx.stream("oracle.scanner-spec", "oracle")
